@@ -50,7 +50,7 @@ def run_history(args):
 
 def run_histories(seeds, max_steps=12, with_delete=True, jobs=None, views=False):
     args = [(s, max_steps, with_delete, views) for s in seeds]
-    jobs = jobs or min(16, os.cpu_count() or 1)
+    jobs = 1 if os.environ.get('VERIF_COVERAGE') else (jobs or min(16, os.cpu_count() or 1))
     if len(args) < 8 or jobs == 1:
         return [run_history(a) for a in args]
     ctx = mp.get_context('fork')
